@@ -37,6 +37,10 @@ BOUNDS = [
 ]
 CUTS = ["local field functions are uninterpreted; scipy Rotation replaced by SymRot"]
 ASSUMPTIONS = ["real arithmetic; unit input quaternions"]
+BOUNDS.append(
+    "objects of every registered class (Tetrahedron with left-handed vertex order, TriangularMesh with the status checks skipped) through src.getX(obs) "
+    "for X in B,H,J,M: symbolic parameters / pose / one observer; every attribute in the object's __dict__ is compared before / after (arrays term by term, "
+    "everything else by identity or ==); the same with committed doubles on the unpatched library for 1 and 3 observers, also after calls rejected for a bad argument")
 NOT_DECIDED = ["style objects are compared by identity only (no style mutation is reachable from getBH_level2)", "output='dataframe' (pandas)"]
 
 
@@ -120,6 +124,14 @@ def cases(tier, seed):
         out.append({"id": f"faults-{nm}", "kind": "faults", "scene": nm, "weight": 5})
     for af in ARG_FAULTS:
         out.append({"id": f"argfault-{af}", "kind": "arg", "fault": af, "weight": 1})
+    from .e2_C07 import CLASSES as _CL
+
+    for cls in _CL:
+        if cls in ("Cylinder", "CylinderSegment", "TriangularMesh", "Polyline"):  # many mask paths: one case per field
+            for f in "BHJM":
+                out.append({"id": f"objects-{cls}-{f}", "kind": "objects", "cls": cls, "fields": f, "weight": 4})
+        else:
+            out.append({"id": f"objects-{cls}", "kind": "objects", "cls": cls, "fields": "BHJM", "weight": 2})
     return out
 
 
@@ -157,6 +169,192 @@ def _state_violation(sc, snap):
     return probs, (z3.Or(*terms) if terms else z3.BoolVal(False))
 
 
+# ----------------------------------------------------------------------------- real objects of every class: the whole __dict__ is unchanged
+LEFT_TETRA = [(0, 0, 0), (0, 1, 0), (1, 0, 0), (0, 0, 1)]
+_SIMPLE = (bool, int, float, str, type(None), tuple)
+
+
+def _deep_snap(obj):
+    snap = {}
+    for k, v in vars(obj).items():
+        if isinstance(v, np.ndarray):
+            snap[k] = ("array", v, np.array(v, copy=True))
+        elif hasattr(v, "as_quat"):
+            snap[k] = ("rot", v, np.array(v.as_quat(), copy=True))
+        elif isinstance(v, list):
+            snap[k] = ("list", v, list(v))
+        else:
+            snap[k] = ("other", v, v)
+    return snap
+
+
+def _deep_diff(obj, snap, symbolic):
+    """-> (structural problems, formulas 'this array entry differs')"""
+    probs, terms = [], []
+    now = vars(obj)
+    if set(now) != set(snap):
+        probs.append(f"attributes {sorted(set(now) ^ set(snap))} added / removed")
+    for k, (kind, ref, cp) in snap.items():
+        if k not in now:
+            continue
+        v = now[k]
+        if kind in ("array", "rot"):
+            a = np.asarray(v.as_quat() if kind == "rot" and hasattr(v, "as_quat") else v)
+            if not isinstance(a, np.ndarray) or a.shape != cp.shape:
+                probs.append(f"{k}: shape {cp.shape} -> {np.shape(a)}")
+            elif a.dtype == object or cp.dtype == object:
+                if symbolic:
+                    terms.append((k, neq_any(a, cp)))
+            elif a.dtype != cp.dtype or not np.array_equal(a, cp, equal_nan=a.dtype.kind == "f"):
+                probs.append(f"{k}: values changed")
+        elif kind == "list":
+            if not isinstance(v, list) or len(v) != len(cp) or any(x is not y for x, y in zip(v, cp)):
+                probs.append(f"{k}: list changed")
+        elif isinstance(cp, _SIMPLE) or cp is None:
+            if type(v) is not type(cp) or v != cp:
+                probs.append(f"{k}: {cp!r} -> {v!r}")
+        elif v is not cp:
+            probs.append(f"{k}: object replaced")
+    return probs, terms
+
+
+def _objects_ctor(name, m):
+    from .e2_C07 import _ctor
+
+    if name == "Tetrahedron":
+        return m.magnet.Tetrahedron(vertices=LEFT_TETRA, polarization=(0.1, 0.2, 0.3))
+    return _ctor(name)
+
+
+def _objects(C):
+    import magpylib as m
+    from .e2_C07 import CLASSES, RATIONAL_ROT, _install_params, _param_values, _pre
+    from .wrappers import WRAPPERS, apply_cuts
+    from symnum import symrot
+    from fractions import Fraction
+
+    name = C.case["cls"]
+    apply_cuts(WRAPPERS[CLASSES[name][0]].cuts)
+    vals, inputs = _param_values(name, True)
+    if name == "Tetrahedron":
+        vals["vertices"] = oarr(np.array(LEFT_TETRA, dtype=float))
+    pos = symarr("pos", (3,))
+    if name in RATIONAL_ROT:
+        rot, unit = SymRot(oarr(np.array([S(toz(Fraction(k, 5))) for k in (1, 2, 2, 4)], dtype=object)), True), []
+    else:
+        rot, unit = symrot("rq")
+    obs = symarr("obs", (1, 3))
+    CTX.pre = _pre(name, vals) + unit
+    inputs = inputs + list(pos) + list(obs.ravel())
+    qg = [list(rot.q[0])]
+    for f in C.case.get("fields", "BHJM"):
+        def run(f=f):
+            src = _objects_ctor(name, m)
+            _install_params(src, name, {k: (v.copy() if hasattr(v, "copy") else v) for k, v in vals.items()})
+            if name == "TriangularMesh":
+                src._vertices = oarr(np.asarray(src._vertices, dtype=float))
+            src._position = pos.reshape(1, 3).copy()
+            src._orientation = SymRot(rot.q.copy(), False)
+            src.style  # styles are created lazily on first access
+            snap = _deep_snap(src)
+            obs_in = obs.copy()
+            try:
+                getattr(src, "get" + f)(obs_in)
+                how = "return"
+            except Exception as e:  # noqa
+                how = f"{type(e).__name__}: {str(e)[:80]}"
+            probs, terms = _deep_diff(src, snap, True)
+            terms.append(("caller observers", neq_any(obs_in, obs)))
+            return how, probs, terms
+
+        def on_path(p, f=f):
+            C.paths += 1
+            if p.status != "ok":
+                C.note_inconclusive(f"{f}.p{C.paths}", f"aborted: {p.out}")
+                return
+            how, probs, terms = p.out
+            rp = {"kind": "objects", "cls": name, "field": f}
+            key = f"C08|objects|{name}|state-changed"
+            if probs:
+                C.oblige(f"{f}.p{C.paths}.state[{'; '.join(probs)[:120]}]", p.pc, z3.BoolVal(True), inputs=inputs, quat_groups=qg, key=key,
+                         on_model=lambda env: {"key": key, "replay": dict(rp, env=env)})
+                return
+            C.oblige(f"{f}.p{C.paths}.state-unchanged({how.split(':')[0]})", p.pc, z3.Or(*[t for _, t in terms]), inputs=inputs, quat_groups=qg, key=key, nice=False,
+                     on_model=lambda env: {"key": key, "replay": dict(rp, env=env)},
+                     sample=f"{name}.get{f}(obs): every array in the object's __dict__ and the caller's observer array are term-identical afterwards, all other attributes identical")
+
+        paths = explore(run, max_paths=16 if C.tier == "quick" else 300, on_path=on_path,
+                        seeds=C.seed_envs(inputs + (list(rot.q.ravel()) if name not in RATIONAL_ROT else []), qg if name not in RATIONAL_ROT else (), n=1))
+        C.decisions += sum(len(p.decisions) for p in paths)
+        if explore.truncated:
+            C.obligations.append({"name": f"{f}.path-budget", "status": "note", "note": "path budget hit: the remaining mask paths of the kernel were not explored (stated bound)"})
+        C.concrete_trace(_replay_objects, {"kind": "objects", "cls": name, "field": f, "env": {}}, f"C08|objects|{name}|state-changed|concrete")
+
+
+def _replay_objects(spec):
+    import warnings
+
+    import magpylib as m
+    from .e2_C07 import CLASSES
+
+    name, f = spec["cls"], spec["field"]
+    env = spec.get("env") or {}
+    g = lambda k, d: float(env[k]) if env.get(k) is not None else d
+    msgs = []
+    for nobs, npath in ((1, 1), (3, 1), (1, 2)):
+        src = _objects_ctor(name, m)
+        for pub, priv, shp, conc in CLASSES[name][1]:
+            if priv is None or shp is None:
+                continue
+            try:
+                if shp == ():
+                    setattr(src, pub, g("par_" + pub, conc))
+                else:
+                    setattr(src, pub, [g(f"par_{pub}_{i}", conc[i]) for i in range(shp[0])])
+            except Exception:  # noqa  (a model outside what the setter accepts: keep the constructor value)
+                pass
+        src.position = [g(f"pos_{i}", 0.3 * (i + 1)) for i in range(3)]
+        q = np.array([g(f"rq_{i}", [0.2, 0.4, 0.4, 0.8][i]) for i in range(4)])
+        if np.linalg.norm(q) > 0:
+            from scipy.spatial.transform import Rotation as R
+
+            src.orientation = R.from_quat(q / np.linalg.norm(q))
+        if npath == 2:
+            src.move([(0.1, 0.2, 0.3)])
+        o0 = [g(f"obs_0_{i}", (0.2, 0.3, 0.4)[i]) for i in range(3)]
+        obs = np.array([o0, (2.5, -1.5, 0.5), (0.1, 0.1, 5.0)][:nobs], dtype=float)
+        sens = m.Sensor(pixel=obs.copy())
+        src.style
+        snap, snap_s = _deep_snap(src), _deep_snap(sens)
+        calls = [("src.getX(obs)", lambda: getattr(src, "get" + f)(obs)), ("getX(src, sens)", lambda: getattr(m, "get" + f)(src, sens)),
+                 ("getX(src, obs, output='bad')", lambda: getattr(m, "get" + f)(src, obs, output="bad")),
+                 ("getX(src, sens, pixel_agg='bad')", lambda: getattr(m, "get" + f)(src, sens, pixel_agg="bad")),
+                 ("getX(src, obs, in_out='bad')", lambda: getattr(m, "get" + f)(src, obs, in_out="bad")),
+                 ("src.getX(obs) again", lambda: getattr(src, "get" + f)(obs))]
+        obs_copy = obs.copy()
+        first = None
+        for label, fn in calls:
+            with warnings.catch_warnings():
+                warnings.simplefilter("ignore")
+                try:
+                    r = fn()
+                    how = "return"
+                except Exception as e:  # noqa
+                    r, how = None, type(e).__name__
+            probs, _ = _deep_diff(src, snap, False)
+            probs += [f"sensor {x}" for x in _deep_diff(sens, snap_s, False)[0]]
+            if not np.array_equal(obs, obs_copy):
+                probs.append("caller's observer array changed")
+            if label == "src.getX(obs)":
+                first = r
+            if label.endswith("again") and first is not None and (r is None or not np.array_equal(np.asarray(first), np.asarray(r), equal_nan=True)):
+                probs.append("second call returns a different result")
+            if probs:
+                msgs.append(f"{name} ({nobs} observer(s), path {npath}) after {label.replace('X', f)} [{how}]: " + "; ".join(probs))
+                break
+    return bool(msgs), (" | ".join(msgs[:2]) or f"{name}: state unchanged by get{f} in doubles")
+
+
 def run_case(case, info):
     C = Case(case, info)
     if case["kind"] == "faults":
@@ -165,6 +363,8 @@ def run_case(case, info):
         _caller(C)
     elif case["kind"] == "core":
         _core(C)
+    elif case["kind"] == "objects":
+        _objects(C)
     else:
         _argfault(C)
     return C.result()
@@ -526,6 +726,8 @@ def replay(spec):
                 return self[k]
 
         env = _E()
+    if spec["kind"] == "objects":
+        return _replay_objects(spec)
     if spec["kind"] == "caller":
         args, _ = _caller_args(spec["cls"], False, env=spec.get("env") or {})
         copies = {k: np.array(v, copy=True) for k, v in args.items()}
